@@ -1009,6 +1009,11 @@ class Interp:
                 return self.alloc(AList(oa.items + ob.items))
         if isinstance(op, ast.BitOr) and (isinstance(a, (ClassV, ExtV)) or isinstance(b, (ClassV, ExtV))):
             return Tup((a, b))   # X | Y type unions used in isinstance
+        if isinstance(op, ast.BitOr) and isinstance(a, Ref) and isinstance(b, Ref) and isinstance(self.deref(a), ADict) and isinstance(self.deref(b), ADict):
+            merged = self.deref(a).clone()          # d1 | d2: a new dict, right operand wins
+            merged.label = None
+            self.dict_merge(merged, b, node)
+            return self.alloc(merged)
         if (isinstance(a, Const) and a.v is None) or (isinstance(b, Const) and b.v is None):
             if isinstance(op, (ast.Add, ast.Sub, ast.Mult, ast.Div)):
                 self.raise_("TypeError", node, note="arithmetic on None")
@@ -2281,7 +2286,28 @@ class Interp:
             name = t.attr if isinstance(t, ast.Attribute) else (t.id if isinstance(t, ast.Name) else None)
             if name in chain:
                 return True
+        # a name that stands for a tuple of exception classes (a module constant, a local), or a computed expression
+        for t in types:
+            if self._exc_names(t, fr) & set(chain):
+                return True
         return False
+
+    def _exc_names(self, t, fr):
+        try:
+            v = self.force(self.eval(t, fr))
+        except (AbsRaise, AnalysisError):
+            return set()
+        out = set()
+        work = [v]
+        while work:
+            x = work.pop()
+            if isinstance(x, Tup):
+                work.extend(x.items)
+            elif isinstance(x, ClassV):
+                out.add(x.ci.name)
+            elif isinstance(x, ExtV):
+                out.add(x.name.split(".")[-1])
+        return out
 
     def s_With(self, s, fr):
         def run(i):
@@ -2316,6 +2342,24 @@ class Interp:
                 finally:
                     self.frames.pop()
                     gfr.yield_cb = None
+                return
+            if isinstance(cm, PartialV) and cm.kind == "suppress":
+                try:
+                    run(i + 1)
+                except AbsRaise as e:
+                    chain = set(self.P.exception_parent_chain(e.exc.cls))
+                    names = set()
+                    for a in cm.args:
+                        x = self.force(a)
+                        names.add(x.ci.name if isinstance(x, ClassV) else (x.name.split(".")[-1] if isinstance(x, ExtV) else "?"))
+                    if not (names & chain):
+                        raise
+                    self.emit("CATCH", s, exc=e.exc.cls)
+                return
+            if isinstance(cm, PartialV) and cm.kind == "nullcontext":
+                if item.optional_vars is not None:
+                    self.assign(item.optional_vars, cm.args[0] if cm.args else NONE, fr, s)
+                run(i + 1)
                 return
             # generic context manager protocol
             enter = self.getattr(cm, "__enter__", s)
